@@ -107,7 +107,7 @@ def behDecide (b : Beh) (res : Option Val) (m : M) : List TAct × Beh × BRes ×
       | none => ([.log Diag.runtime_CallstackFoundNoValue], cnt)
     let (a2, size') := resizeActs m arr size
     let idx' := idx + 1
-    if idx' == size' then (a1 ++ a2 ++ [.pushV (num cnt')], .count arr idx' size' cnt', .ok, false)
+    if idx' ≥ size' then (a1 ++ a2 ++ [.pushV (num cnt')], .count arr idx' size' cnt', .ok, false)
     else
       let (a3, b', r, t) := iterNext m arr idx' [] (.count arr idx' size' cnt')
       (a1 ++ a2 ++ a3, b', r, t)
@@ -142,22 +142,22 @@ def behDecide (b : Beh) (res : Option Val) (m : M) : List TAct × Beh × BRes ×
   | .forEach arr idx size =>
     let (a2, size') := resizeActs m arr size
     let idx' := idx + 1
-    if idx' == size' then (a2, .forEach arr idx' size', .ok, false)
+    if idx' ≥ size' then (a2, .forEach arr idx' size', .ok, false)
     else
       let (a3, b', r, t) := iterNext m arr idx' [(n!"_foreachindex", num idx')] (.forEach arr idx' size')
       (a2 ++ a3, b', r, t)
   | .select arr out idx size =>
     let xs0 := m.arr arr
-    let (a1, out', thrown) : List TAct × List Val × Bool := match res with
+    let (a1, out') : List TAct × List Val := match res with
       | some (.bool t) =>
-        if t then (if idx ≥ xs0.length then ([], out, true) else ([], out ++ [nth xs0 idx], false))
-        else ([], out, false)
-      | some v => ([mismatchAct v], out, false)
-      | none => ([.log Diag.runtime_CallstackFoundNoValue], out, false)
-    if thrown then (a1, b, .ok, true) else
+        -- an element the code itself removed is not selected
+        if t then (if idx ≥ xs0.length then ([], out) else ([], out ++ [nth xs0 idx]))
+        else ([], out)
+      | some v => ([mismatchAct v], out)
+      | none => ([.log Diag.runtime_CallstackFoundNoValue], out)
     let (a2, size') := resizeActs m arr size
     let idx' := idx + 1
-    if idx' == size' then (a1 ++ a2 ++ [.pushNewArr out'], .select arr out' idx' size', .ok, false)
+    if idx' ≥ size' then (a1 ++ a2 ++ [.pushNewArr out'], .select arr out' idx' size', .ok, false)
     else
       let (a3, b', r, t) := iterNext m arr idx' [] (.select arr out' idx' size')
       (a1 ++ a2 ++ a3, b', r, t)
@@ -167,7 +167,7 @@ def behDecide (b : Beh) (res : Option Val) (m : M) : List TAct × Beh × BRes ×
       | none => ([.log Diag.runtime_CallstackFoundNoValue], out)
     let (a2, size') := resizeActs m arr size
     let idx' := idx + 1
-    if idx' == size' then (a1 ++ a2 ++ [.pushNewArr out'], .apply arr out' idx' size', .ok, false)
+    if idx' ≥ size' then (a1 ++ a2 ++ [.pushNewArr out'], .apply arr out' idx' size', .ok, false)
     else
       let (a3, b', r, t) := iterNext m arr idx' [] (.apply arr out' idx' size')
       (a1 ++ a2 ++ a3, b', r, t)
@@ -181,7 +181,7 @@ def behDecide (b : Beh) (res : Option Val) (m : M) : List TAct × Beh × BRes ×
         | none => [.log Diag.runtime_CallstackFoundNoValue]
       let (a2, size') := resizeActs m arr size
       let idx' := idx + 1
-      if idx' == size' then (a1 ++ a2 ++ [.pushV (.num (Dec.ofInt (-1)))], .findIf arr idx' size', .ok, false)
+      if idx' ≥ size' then (a1 ++ a2 ++ [.pushV (.num (Dec.ofInt (-1)))], .findIf arr idx' size', .ok, false)
       else
         let (a3, b', r, t) := iterNext m arr idx' [] (.findIf arr idx' size')
         (a1 ++ a2 ++ a3, b', r, t)
